@@ -39,6 +39,9 @@ def seq_property(prop, tier):
     for name in names:
         for cfg in configs.instances(name, tier):
             runs.append((cfg, seqcheck.run_config(prop, preds, cfg, cfg.name)))
+    if prop in RECORDED_FOR:
+        # code -> spec with the randomized driver: long random programs, recorded and validated by TLC
+        runs.append((seqcheck._RecCfg(), seqcheck.run_random(prop, preds, tier)))
     if tier == "thorough" and prop in RECORDED_FOR:
         # code -> spec from an independent source: the repository's own tests, recorded and validated by TLC
         runs.append((seqcheck._RecCfg(), seqcheck.run_recorded(prop, preds)))
@@ -47,6 +50,21 @@ def seq_property(prop, tier):
 
 def replay(prop, path):
     doc = json.load(open(path))
+    if doc["config"] == "randprog":
+        from . import randdriver
+        tr, summ, reports = randdriver.replay(doc["origin"], os.path.join(engine.WORK, prop, "replay-run"))
+        for t in tr:
+            for s in t.steps:
+                print(json.dumps(t.calls[s["k"] - 1]), "->", s["out"], s["ret"])
+        print("verdicts:", [(r["line"], r["drift"], r["v"]) for r in reports], summ["errors"])
+        if any(doc["pred"] in r["v"] for r in reports):
+            print(f"VIOLATION property={prop} replay={path}")
+            return 1
+        return 0
+    if doc["config"] == "repotests":
+        print(f"recorded from {doc.get('origin')}; history: {json.dumps(doc.get('history'))[:2000]}")
+        print("re-run with:  ./check", prop, "--tier thorough")
+        return 0
     cfg = configs.by_tag(doc["config"])
     tr = engine.record_trace(cfg, doc.get("dev", 1), tuple(doc["history"]))
     res, rep = engine.trace_check(cfg, [tr], os.path.join(engine.WORK, prop, "replay-run"))
